@@ -589,13 +589,15 @@ def nice_configs(tier):
     for c in c16_configs(tier, kind="time-c14"):
         if tier == "quick" and c["m"] != 10 and c["win"] % 3:
             continue
-        if tier == "quick":
-            # nice() walks down/up to the next non-skipped boundary one unit at a time: cap the windows whose step can be
-            # hundreds of units (millisecond ticks, multi-year ticks); the thorough tier explores them in full
-            if c["win"] == 0:
-                c["span_cap_ms"] = 20 * c["m"]
-            if c["win"] == nwin - 1:
-                c["span_cap_ms"] = 40 * 366 * 86400 * 1000
+        # nice() walks down/up to the next non-skipped boundary one unit at a time: cap the windows whose step can be
+        # hundreds of units (millisecond ticks, multi-year ticks); the thorough tier adds m = 5 on every window and anchor
+        # (larger caps were measured beyond 25 minutes)
+        if tier != "quick" and c["m"] not in (5, 10):
+            continue
+        if c["win"] == 0:
+            c["span_cap_ms"] = 20 * c["m"]
+        if c["win"] == nwin - 1:
+            c["span_cap_ms"] = 40 * 366 * 86400 * 1000
         out.append(c)
     return out
 
